@@ -1902,7 +1902,79 @@ def _svg_programs():
     return progs
 
 
+def _svg_concrete(cfg, why):
+    """the same document with concrete module values (two complementary chequered symbols): used when the symbolic evaluation cannot
+    follow the renderer.  Every module is dark in exactly one of the two symbols: it must be drawn there and not in the other."""
+    v, margin, pi = cfg
+    import re
+    f = _G["facts"]
+    n = ref.side(v)
+    layers = _svg_programs()[pi]
+    bg, dot = "#b1b2b3", "#d1d2d3"
+    S = n + 2 * margin
+    problems = []
+    for phase in (0, 1):
+        pe = peval.PEval(f, max_steps=200_000_000)
+        r = pe.call("qr::QRCode::default", [fold.mk_int("usize", n)])
+        if r.kind != "ret" or r.value == TOP or r.value[4][0] == TOP or r.value[4][0][0] != "harr":
+            return cfg, "top", "QRCode::default does not fold"
+        qr = r.value
+        h = qr[4][0]
+        dark = lambda rr, cc: ((rr * 3 + cc * 5 + (rr * cc) % 7) % 2) == phase
+        for rr in range(n):
+            for cc in range(n):
+                pe.heap.put(h, rr * n + cc, ("adt", "module::Module", 0, "Module", (fold.mk_int("u8", 1 if dark(rr, cc) else 0),)))
+        b = _svg_builder(f, margin, layers, bg, dot)
+        if b is None:
+            return cfg, "top", "SvgBuilder has fields the rule does not know"
+        r2 = pe.run(SVGB + "::to_str", [("ref", ("const", b)), ("ref", ("const", qr))])
+        if r2.kind == "diverge":
+            return cfg, "diverge", r2.why
+        txt = peval._pystr(pe, None, r2.value) if r2.kind == "ret" and r2.value != TOP else None
+        if txt is None:
+            return cfg, "top", "%s; with concrete modules: %s" % (why, r2.why or "to_str does not return a known string")
+        m = re.match(r'^<svg viewBox="0 0 (\d+) (\d+)" xmlns="http://www.w3.org/2000/svg"><rect width="(\d+)px" height="(\d+)px" fill="([^"]*)"/>(.*)</svg>$', txt, re.S)
+        if not m:
+            return cfg, "ret", [("skeleton", "<svg viewBox=.. xmlns=..><rect width height fill/>..</svg>", txt[:120])]
+        if not (m.group(1) == m.group(2) == m.group(3) == m.group(4) == str(S)):
+            problems.append(("side", S, m.group(1, 2, 3, 4)))
+        if m.group(5) != bg:
+            problems.append(("background fill", bg, m.group(5)))
+        paths = re.findall(r'<path d="([^"]*)"((?: [a-z-]+="[^"]*")*)/>', m.group(6))
+        if re.sub(r'<path d="[^"]*"(?: [a-z-]+="[^"]*")*/>', "", m.group(6)):
+            problems.append(("extra markup", "", re.sub(r'<path d="[^"]*"(?: [a-z-]+="[^"]*")*/>', "", m.group(6))[:80]))
+        want_layers = layers or [("square", None)]
+        if len(paths) != len(want_layers):
+            problems.append(("layer count", len(want_layers), len(paths)))
+        want_cells = [(rr, cc) for rr in range(n) for cc in range(n) if dark(rr, cc)]
+        for li, ((d, attrs), (shape, colr)) in enumerate(zip(paths, want_layers)):
+            subs = re.findall(r"M(\d+(?:\.\d+)?),(\d+(?:\.\d+)?)[^M]*", d)
+            if len(subs) != len(want_cells):
+                problems.append(("layer %d: sub-path count" % li, len(want_cells), len(subs)))
+                continue
+            for (a, bb), (y, x) in zip(subs, want_cells):
+                a, bb = float(a), float(bb)
+                if not (x + margin <= a <= x + margin + 1 and y + margin <= bb <= y + margin + 1):
+                    problems.append(("layer %d: module (%d,%d)" % (li, y, x), "a sub-path M in [%d,%d]x[%d,%d]" % (
+                        x + margin, x + margin + 1, y + margin, y + margin + 1), "M%s,%s" % (a, bb)))
+                    break
+            want = colr or dot
+            am = dict(re.findall(r' ([a-z-]+)="([^"]*)"', attrs))
+            if am.get("fill") != want:
+                problems.append(("layer %d: fill" % li, want, am.get("fill")))
+        if problems:
+            break
+    return cfg, "ret-concrete", problems
+
+
 def _svg_job(cfg):
+    r_ = _svg_job_sym(cfg)
+    if r_[1] == "top":
+        return _svg_concrete(cfg, r_[2])
+    return r_
+
+
+def _svg_job_sym(cfg):
     v, margin, pi = cfg
     import re
     f = _G["facts"]
@@ -1984,15 +2056,19 @@ def _svg_job(cfg):
     return cfg, "ret", problems
 
 
-def _img_job(probe):
-    """SvgBuilder::to_str on a V01 symbol of light modules with the image option set to `probe` -> the document text"""
+def _img_job(job):
+    """SvgBuilder::to_str on a symbol of light modules with the image option set to `probe` -> the document text"""
+    if isinstance(job, tuple):
+        probe, ver, margin = job
+    else:
+        probe, ver, margin = job, 1, 4
     f = _G["facts"]
-    n = ref.side(1)
+    n = ref.side(ver)
     pe = peval.PEval(f, max_steps=30_000_000)
     r = pe.call("qr::QRCode::default", [fold.mk_int("usize", n)])
     if r.kind != "ret" or r.value == TOP:
         return probe, "top", "QRCode::default does not fold"
-    b = _svg_builder(f, 4, [], "#ffffff", "#000000")
+    b = _svg_builder(f, margin, [], "#ffffff", "#000000")
     if b is None:
         return probe, "top", "SvgBuilder has fields the rule does not know"
     names = [fl["name"] for fl in f.adts[SVGB]["variants"][0]["fields"]]
@@ -2019,12 +2095,16 @@ def c12_r9(ctx, f, rid="C12.R9"):
     import xml.etree.ElementTree as ET
     _G["facts"] = f
     probes = [p_ for p_ in ESC_PROBES if p_]
-    res = cache.pmap(f, "image-href", _img_job, probes, params=f.config)
+    # ... and a plain image on other symbols and margins (odd and even, the smallest and the largest symbol): the element is there
+    # whatever the geometry (a panic in the frame arithmetic is met here too)
+    geo = [("logo.png", v_, m_) for v_ in (1, 2, 7, 40) for m_ in (0, 1, 4, 9)]
+    res = cache.pmap(f, "image-href", _img_job, probes + geo, params=f.config)
+    res = [((r_[0][0] + " on V%02d margin %d" % r_[0][1:], r_[0][0]) if isinstance(r_[0], tuple) else (r_[0], r_[0]), r_[1], r_[2]) for r_ in res]
     n_ok = 0
     und = _Und()
     groups = _Groups()
-    for probe, kind, out in res:
-        shown = probe.encode("unicode_escape").decode()[:60]
+    for (label, probe), kind, out in res:
+        shown = label.encode("unicode_escape").decode()[:60]
         if kind == "diverge":
             groups.add("panics", "image %r" % shown, "a document", out)
             continue
@@ -2077,21 +2157,28 @@ def c12_r7(ctx, f, rid="C12.R7"):
         for margin in ((0, 4) if ctx.tier != "thorough" else (0, 1, 4, 9)):
             for pi in range(len(progs)):
                 cfgs.append((v, margin, pi))
+    # coordinates beyond 255 and 256 (a large symbol with a large margin; the margin is a free option): default layer only
+    cfgs += [(1, 250, 0), (2, 240, 1), (1, 65530, 2)] if ctx.tier != "thorough" else [(1, 250, 0), (2, 240, 1), (1, 65530, 2), (27, 131, 0), (40, 100, 1)]
     res = cache.pmap(f, "svg-doc", _svg_job, sorted(cfgs, reverse=True), params=f.config)
     groups = _Groups()
     und = _Und()
-    n_ok = 0
+    n_ok = n_conc = 0
     for cfg, kind, out in sorted(res):
         inst = "V%02d/margin=%d/layers=%s" % (cfg[0], cfg[1], "+".join(sh for sh, c in progs[cfg[2]]) or "default")
         if kind == "diverge":
             groups.add("panics", inst, "a document", out)
-        elif kind != "ret":
+        elif kind not in ("ret", "ret-concrete"):
             und.add(out, inst)
         elif out:
             p0 = out[0]
             groups.add(re_key(p0[0]), inst, p0[1], p0[2])
         else:
             n_ok += 1
+            if kind == "ret-concrete":
+                n_conc += 1
+    if n_conc:
+        ctx.subset(rid, "%d document(s) were decided on two complementary concrete symbols (every module dark in exactly one), because the "
+                        "symbolic evaluation could not follow the renderer" % n_conc)
     if n_ok:
         ctx.ok(rid, "%d (version, margin, layer program) documents satisfy every clause for every matrix content" % n_ok, n=n_ok)
     groups.emit(ctx, rid, SVGB + "::to_str", where_fn(fn), fn.path,
